@@ -468,9 +468,12 @@ elif fn == "t_slope":
     class LM:
         def guess(self, d, x=None): return None
         def fit(self, d, pars, x=None):
-            o = Out(); o.params = {{"slope": lin.get("lin_slope", 1.0), "intercept": lin.get("lin_icpt", 0.0)}}
-            o.best_fit = o.params["slope"] * x + o.params["intercept"]; return o
-        def eval(self, params, x=None): return params["slope"] * x + params["intercept"]
+            import lmfit as _lm
+            o = Out(); o.params = _lm.Parameters()
+            o.params.add("slope", value=lin.get("lin_slope", 1.0)); o.params.add("intercept", value=lin.get("lin_icpt", 0.0))
+            o.best_values = {{"slope": o.params["slope"].value, "intercept": o.params["intercept"].value}}
+            o.best_fit = o.params["slope"].value * x + o.params["intercept"].value; return o
+        def eval(self, params, x=None): return params["slope"].value * x + params["intercept"].value
     pp.lmfit.models.LinearModel = LM
     i = mk({{"force": f, "time": tm, "tip position": tp}})
     pp.preproc_correct_force_slope(i, region=a["region"], strategy=a["strategy"])
